@@ -11,7 +11,10 @@ import (
 // regexp test are compatible with the statement ("lines": split, strip, any line; "plain": the text as it is);
 // every row carries the verdict under each.  A result which is neither is a violation; so is an implementation
 // which agrees with one definition on some subjects and with the other elsewhere - it follows none.
-func runMatchRows(c *Check) {
+func runMatchRows(c *Check) { runMatchRowsAs(c, false) }
+
+// asCall: the same subjects and patterns through the built-in match(subject, pattern) instead of the operators
+func runMatchRowsAs(c *Check, asCall bool) {
 	var mu sync.Mutex
 	followed := map[string][]string{} // definition -> scripts on which only that one agrees
 	cfg := "SPECIFICATION Spec\nINVARIANT Compatible\nINVARIANT Export\nCHECK_DEADLOCK FALSE\n"
@@ -26,6 +29,17 @@ func runMatchRows(c *Check) {
 		}
 		lines, plain := mustVal(extra.Lines), mustVal(extra.Plain)
 		src, vars, obj := buildExprRow(row)
+		if asCall {
+			// ["bin", op, ["lit", subject], ["lit", ["R", pattern, flags]]]
+			e := asList(row.E)
+			if asString(e[1]) != "~=" || row.Prov != "ll" {
+				return
+			}
+			subj := mustVal(asList(e[2])[1])
+			re := asList(asList(e[3])[1])
+			sl, _ := subj.Literal()
+			src, vars, obj = "return match("+sl+", "+quoteString([]rune(cpsToString(re[1])))+");", nil, map[string]interface{}{}
+		}
 		c.count("match|"+row.Prov+"|"+src, true)
 		for _, opt := range []bool{true, false} {
 			mode := map[bool]string{true: "opt", false: "noopt"}[opt]
